@@ -302,6 +302,16 @@ fn state<D: DocLike>(doc: &D, st: &Stores, names: &[(MethodDigest, String)]) -> 
   format!("{}|K={}|I={}", show_doc(doc.core()), ks, is.iter().map(|(n, k)| format!("{}>{}", n, k)).collect::<Vec<_>>().join(","))
 }
 
+/// the number the correspondence uses for a fragment name (the model computes the same: IdModel.Store.fragmentNumber)
+fn fragment_number(f: &str) -> u32 {
+  let b = f.as_bytes();
+  if b.first() == Some(&b'k') && b.len() > 1 && b.len() <= 7 && b[1..].iter().all(|c| c.is_ascii_digit()) {
+    f[1..].parse().unwrap_or(999)
+  } else {
+    900 + b.iter().fold(0u32, |a, c| (a * 31 + *c as u32) % 97)
+  }
+}
+
 /// names for the digests of every (fragment string, generated key) pair seen so far
 fn digest_names(did: &identity_did::CoreDID, frags: &[String]) -> Vec<(MethodDigest, String)> {
   let keys: Vec<Jwk> = KEYS.with(|k| k.borrow().iter().map(|(_, j)| j.clone()).collect());
@@ -357,6 +367,21 @@ fn run_hist<D: DocLike>(spec: &Spec, ops: &[&str]) -> String {
           }
         };
         let frag: Option<String> = match *fr {
+          // `S<hex>`: the fragment string itself (the model decides through the C10 join model whether it is one)
+          x if x.starts_with('S') => {
+            let Some(raw) = crate::rng::unhex(&x[1..]).and_then(|b| String::from_utf8(b).ok()) else {
+              out.push("bad-op".into());
+              break;
+            };
+            let name = raw.strip_prefix('#').unwrap_or(&raw).to_string();
+            FRAGS.with(|t| {
+              let mut t = t.borrow_mut();
+              if !t.iter().any(|(s, _)| *s == name) {
+                t.push((name.clone(), fragment_number(&name)));
+              }
+            });
+            Some(raw)
+          }
           "~" => None,
           "X" => Some("not a fragment".to_string()),
           // other strings that are no fragment: a doubled delimiter in front of a valid name, a second delimiter inside,
@@ -578,6 +603,22 @@ pub fn gen(thorough: bool, seed: u64, out: &mut impl Write) {
   // the same without references to the fragments generated below
   let busy_b = spec_line(0, &[(i(0, 0, 7), 11)], &[vec![Err(i(0, 0, 7)), Err(i(0, 0, 5))], vec![], vec![Ok((i(0, 0, 8), 12))], vec![], vec![Err(i(1, 0, 1))]], &[(i(0, 0, 9), 13)]);
   let scopes = ["vm", "0", "1", "2", "3", "4"];
+  // (a0) fragment STRINGS of every shape: whether each is a fragment (and which) is the C10 model's verdict
+  let frag_strings = [
+    "k1", "#k1", "##k1", "#", "", "k 1", "k1?x/y", "#%41", "#%4", "k%zz", "#k1#", "\u{e9}", "k1\n", "/k1", "?k1", "#k1/../x", "k1:2", "a@b", "k1%41", " k1", "k7", "#k9",
+    "k1#k2", "%41%42", "k1%4", "k1%", "-._~", "!$&'()*+,;=", "k1 ", "#?", "#/", "K1", "k01",
+  ];
+  for kind in ["C", "I"] {
+    for start in [&empty, &busy] {
+      for fs in frag_strings {
+        for m in [0u32, 2] {
+          let bits = ((m >> 2) & 1) << 4 | ((m >> 1) & 1) << 3 | (m & 1) << 2;
+          let fr = format!("S{}", crate::rng::hex(fs.as_bytes()));
+          writeln!(out, "C09 hist {}{} | gen:vm:{}:{} S gen:0:{}:00000000 S", kind, start, fr, mask(bits), fr).unwrap();
+        }
+      }
+    }
+  }
   for kind in ["C", "I"] {
     // (a) generate_method: every fault mask x scope x fragment kind, from both start documents; then a fault-free
     //     generate of the same fragment (shows that nothing stale blocks it), state after each step
